@@ -254,13 +254,24 @@ func newMonitoredConn(endpoint string, conn *grpc.ClientConn, gme *GCPMultiEndpo
 	return
 }
 
-func (mc *monitoredConn) notify(state connectivity.State) {
+// notify reads the state of the connection and reports it to all multiendpoints. The state
+// is read under the same lock that UpdateMultiEndpoints holds while it reports the states
+// of the pools: a state sampled before waiting for that lock would be reported after the
+// newer one and undo it.
+func (mc *monitoredConn) notify() connectivity.State {
+	mc.gme.mu.RLock()
+	defer mc.gme.mu.RUnlock()
+	state := mc.conn.GetState()
+	mc.reportLocked(state)
+	return state
+}
+
+// reportLocked informs all multiendpoints of the state of the connection.
+// Must be called holding gme.mu.
+func (mc *monitoredConn) reportLocked(state connectivity.State) {
 	if mc.gme.log.V(FINE) {
 		mc.gme.log.Infof("%q endpoint state changed to %v", mc.endpoint, state)
 	}
-	// Inform all multiendpoints.
-	mc.gme.mu.RLock()
-	defer mc.gme.mu.RUnlock()
 	if mc.gme.pools[mc.endpoint] != mc {
 		// This pool was removed. Its endpoint may have a new pool already: a late
 		// report about the old connection must not be taken for the new one's state.
@@ -273,8 +284,7 @@ func (mc *monitoredConn) notify(state connectivity.State) {
 
 func (mc *monitoredConn) monitor(ctx context.Context) {
 	for {
-		currentState := mc.conn.GetState()
-		mc.notify(currentState)
+		currentState := mc.notify()
 		if !mc.conn.WaitForStateChange(ctx, currentState) {
 			break
 		}
